@@ -238,6 +238,7 @@ def _parts(exp):
 # deviations a known finding predicts (switched on only while a failure is being explained)
 TOL = set()
 TOL_DEFAULT = [None]
+TOL_LATE = set()        # namespaces of late QName values (native writer only)
 
 
 def _qname_forms(uri, local, scope):
@@ -316,7 +317,10 @@ def compare_tree(actual, exp, path="/"):
     if actual[0] != exp[0]:
         return "%s: node kind %s, expected %s" % (here, actual[0], exp[0])
     if (actual[1], actual[2]) != (exp[1], exp[2]):
-        return "%s: element name {%s}%s, expected {%s}%s" % (here, actual[1], actual[2], exp[1], exp[2])
+        # c03-qname-late-prefix, native writer: the handler believes the namespace of a late QName value bound,
+        # XMLGenerator never heard of the binding and writes a later element of that namespace with a stale prefix
+        if not (exp[1] in TOL_LATE and actual[2] == exp[2]):
+            return "%s: element name {%s}%s, expected {%s}%s" % (here, actual[1], actual[2], exp[1], exp[2])
     scope = actual[5]
     got = {(a[0], a[1]): a[2] for a in actual[3]}
     want = {(a[0], a[1]): a[2] for a in exp[3]}
@@ -518,6 +522,19 @@ def p_nonxml_chars(a):
     return any(not S.xml_chars(s) for _, s in _texts(a)) or any(not S.xml_chars(u) for u in _uris(a))
 
 
+def late_qname_namespaces(a):
+    """namespaces of the QName values in DATA events that are not the first content event after their START"""
+    out = set()
+    prev = None
+    for e in a["events"]:
+        if e[0] == "data" and prev not in ("start", "attr"):
+            for q in _qname_atoms(e[1]):
+                if q.startswith("{"):
+                    out.add(q[1:q.find("}")])
+        prev = e[0]
+    return out
+
+
 def p_qname_late(a):
     """a QName value with a namespace in a DATA event that is not the first
     content event after its START (its prefix is created after the element's
@@ -694,10 +711,13 @@ def _predicted(fid, a, b, f):
         present = {g for g, (pred, _) in KNOWN.items() if pred(a)}
         TOL.update(present)
         TOL_DEFAULT[0] = user_map(a["ns_map"]).get(None)
+        if "c03-qname-late-prefix" in present and wname == "native":
+            TOL_LATE.update(late_qname_namespaces(a))
         try:
             k2, d2 = judge_output(text, expected_tree(a["events"], a["cfg"]))
         finally:
             TOL.clear()
+            TOL_LATE.clear()
             TOL_DEFAULT[0] = None
         return None if k2 is None else "apart from what the findings %s predict: %s %s" % (sorted(present), k2, d2[:200])
     if kind == "not-wf" and fid == "c03-nonxml-chars":
@@ -834,7 +854,12 @@ def f_qname_late():
     out2 = _render(Mixed(content=[AnyElement(qname="B"), QName("{urn:x}y")]))
     lx = _render(Mixed(content=[AnyElement(qname="B"), QName("{urn:x}y")]), None, LxmlEventWriter)
     bad = out == "EXC KeyError" and out2 == "<M><B/>ns0:y</M>" and lx == "<M><B/>ns0:y</M>"
-    return bad, "render(M mixed [B, QName({urn:x}y), {urn:x}C]) -> %s; without C -> %s (prefix ns0 never declared; lxml the same)" % (out, out2)
+    # third face: the later element is written with a stale (empty) prefix
+    ev = [["start", "{urn:a}R"], ["start", "b"], ["start", "c"], ["end", "c"], ["data", {"q": "{urn:a}x"}],
+          ["start", "{urn:a}a"], ["end", "{urn:a}a"], ["end", "b"], ["end", "{urn:a}R"]]
+    out3 = S.run_writer(XmlEventWriter, ev, [["", "urn:a"]], {})
+    bad = bad and out3 == '<R xmlns="urn:a"><b xmlns=""><c/>ns1:x<a/></b></R>'
+    return bad, "render(M mixed [B, QName({urn:x}y), {urn:x}C]) -> %s; without C -> %s (prefix ns0 never declared; lxml the same); stale prefix: %s" % (out, out2, out3)
 
 
 @dataclass
